@@ -196,6 +196,27 @@ def _run_impl(cases):
                          "obligations": raw3.get("obligations"), "reason": raw3.get("reason")}
                 if eng3 != eng or comp3 != comp:
                     hist = {"engine_after_history": eng3, "compiled_after_history": comp3}
+                # ... and on a Guard that was created with another policy and then given this one by set_policy();
+                # every 3rd case with policies that json.dumps cannot serialise (a datetime literal in a rule that
+                # never matches), as Python-built policies may be
+                if hist is None:
+                    import datetime as _dt
+                    inert = [{"id": "zz_dt", "effect": "deny", "actions": ["purge"], "resource": {"type": "doc"},
+                              "condition": {"after": [_dt.datetime(2999, 1, 1, tzinfo=_dt.timezone.utc), {"attr": "context.now"}]}}] \
+                        if len(res) % 3 == 0 else []
+                    target = {"algorithm": c["policy"]["algorithm"], "rules": list(c["policy"]["rules"]) + inert}
+                    decoy = {"algorithm": "permit-overrides",
+                             "rules": [{"id": "zz_decoy", "effect": "permit", "actions": ["*"], "resource": {}}] + inert}
+                    g4 = Guard(decoy, strict_types=c["strict"])
+                    await g4.evaluate_async(Subject(id="u"), Action("read"),
+                                            Resource(type=r["type"], id=r["id"], attrs=dict(r["attrs"])), Context({}))
+                    g4.set_policy(target)
+                    d4 = await g4.evaluate_async(Subject(id="u"), Action("read"),
+                                                 Resource(type=r["type"], id=r["id"], attrs=dict(r["attrs"])), Context({}))
+                    eng4 = {"decision": d4.effect, "rule_id": d4.rule_id, "obligations": d4.obligations, "reason": d4.reason}
+                    if proj(eng4) != proj(eng):
+                        hist = {"engine_after_set_policy_on_a_guard_created_with_another_policy": eng4,
+                                "policy_serialisable_by_json": not inert}
             except Exception as e:  # noqa: BLE001
                 if isinstance(eng, dict):
                     hist = {"engine_after_history": ["Raise", type(e).__name__]}
